@@ -232,6 +232,27 @@ class History:
                     raise
                 expected[(id(t), node)] = expr
                 particle = t.states[parent_of(t.topology, node)].particle
+                # the expected factor comes from the library's own builder: what it does with the variables it was
+                # handed is checked here, independently (a form factor / energy-dependent width is a function of
+                # the node's own three masses; a builder that drops or doubles one of them is caught)
+                bidx = self.model.get(decay_key(t, node))
+                if bidx is not None and bidx != PROBE:
+                    bname = builder_for(bidx)[0]
+                    m_in, m_a, m_b = node_variables(t, node)[:3]
+                    needed = {m_in} if bname in {"relativistic_breit_wigner"} else {m_in, m_a, m_b}
+                    if bname == "non_dynamic":
+                        needed = set()
+                    missing = needed - sp.sympify(expr).free_symbols
+                    foreign = {
+                        x for x in sp.sympify(expr).free_symbols if x.name.startswith("m_") and not x.name.startswith("m_{")
+                    } - {m_in, m_a, m_b}
+                    if missing or foreign:
+                        self.result = violation(
+                            "builder_expression_has_wrong_node_variables", nontrivial, sorted(labels), builder=bname,
+                            missing=sorted(map(str, missing)), foreign=sorted(map(str, foreign)), expr=str(expr)[:300],
+                        )
+                        return
+                    labels.add("builder_variables_checked")
                 for p, v in pars.items():
                     # documented defaults of the public builders: the resonance's own mass and width, radius 1
                     # (taken from the particle, not from what the builder object returns: it may remember)
